@@ -944,9 +944,23 @@ class Variable(CanBehaveLikeAVariable[T]):
         else:
             yield from self._yield_from_cache_or_instantiate_new_values_(sources)
 
-    def _generate_combinations_for_child_vars_values_(self, sources: Optional[Dict[int, HashedValue]] = None):
-        kwargs_generators = {k: v._evaluate__(sources) for k, v in self._child_vars_.items()}
-        yield from generate_combinations(kwargs_generators)
+    def _generate_combinations_for_child_vars_values_(self, sources: Optional[Dict[int, HashedValue]] = None,
+                                                      names: Optional[List[str]] = None,
+                                                      kwargs: Optional[Dict[str, Dict[int, HashedValue]]] = None):
+        """
+        Yield the value combinations of the child variables, each child variable is evaluated under the bindings made
+        by the ones before it, such that arguments that share a variable take their values from the same binding.
+        """
+        names = list(self._child_vars_.keys()) if names is None else names
+        kwargs = kwargs or {}
+        if not names:
+            yield kwargs
+            return
+        for value in self._child_vars_[names[0]]._evaluate__(copy(sources) if sources else {}):
+            new_sources = copy(sources) if sources else {}
+            new_sources.update(value)
+            yield from self._generate_combinations_for_child_vars_values_(new_sources, names[1:],
+                                                                          {**kwargs, names[0]: value})
 
     def _yield_from_cache_or_instantiate_new_values_(self, sources: Optional[Dict[int, HashedValue]] = None,
                                                      kwargs: Dict[str, Dict[int, HashedValue]] = None):
